@@ -26,6 +26,10 @@ func countingAPI(n, ncols int, rows []grow) ([][]int64, error) {
 	var out [][]int64
 	ch := cw.OutputChan()
 	read := func(d time.Duration) bool {
+		long := d >= time.Second
+		if long {
+			d = waitLimit(d)
+		}
 		select {
 		case b := <-ch:
 			ids := make([]int64, len(b))
@@ -35,6 +39,9 @@ func countingAPI(n, ncols int, rows []grow) ([][]int64, error) {
 			out = append(out, ids)
 			return true
 		case <-time.After(d):
+			if long {
+				chargeWait(d)
+			}
 			return false
 		}
 	}
